@@ -63,6 +63,10 @@ def check(run):
         f = ix.method(duror, name)
         uses = [n for n in walk_local(f.node) if isinstance(n, ast.Assign) and isinstance(n.value, ast.Call) and method_call(n.value) == ("self", "unsuffix")]
         if not uses:
+            delegates = any(isinstance(c, ast.Call) and (method_call(c) or ("", ""))[0] == "self" and method_call(c)[1] in SCANS and method_call(c)[1] != name
+                            for c in walk_local(f.node))
+            if delegates and not any(isinstance(c, ast.Call) and isinstance(c.func, ast.Attribute) and c.func.attr in ("iternext", "set_range") for c in walk_local(f.node)):
+                continue        # no cursor work of its own: it is built on another scan, which is checked
             run.inconclusive_at("C24.R3", run.site(f), "scan does not call self.unsuffix on the cursor key: key comparison idiom not recognised")
             continue
         for u in uses:
